@@ -3,7 +3,7 @@
    not), every caller buffer size from Caps, every transport chunk, every split of the backend stream. *)
 EXTENDS EchPipe
 
-CONSTANTS CTypes, BTypes, Lens, Caps, MaxC, MaxB, WChunks
+CONSTANTS CTypes, BTypes, Lens, Caps, MaxC, MaxB, WChunks, Tmo
 
 RecsC == UNION { [1..m -> [t : CTypes, len : Lens, out : {7}]] : m \in 0..MaxC }
 RecsB == UNION { [1..m -> [t : BTypes, len : Lens]] : m \in 0..MaxB }
@@ -15,6 +15,7 @@ MCInit ==
   /\ firstIn = 6 /\ firstOut \in {6, 4} /\ accepted = (firstOut = 4)
   /\ cutKind \in {"eof", "err"} /\ bigHdr \in BOOLEAN /\ (bigHdr \/ HasBig(crecs))
   /\ cutAt \in firstIn..ClientTotal
+  /\ tmoAt \in {-1} \cup (IF Tmo THEN firstIn..(cutAt - 1) ELSE {})
   /\ InitState
 
 MaxCap == CHOOSE c \in Caps : \A d \in Caps : d <= c
